@@ -14,6 +14,9 @@
      blob <tok> ...
          an op sequence on two blob handles against the real blob.c (c07_blob.h); the visible state after
          every step is printed and compared with the Lean model; run in the hooked AND the page-rounded build
+     tr <family> <seed> <params...>
+         decoders on EXACT-size heap copies of every prefix of a valid encoding and of single-octet mutations
+         (+-1..3, +0x80, with and without 1..3 octets cut off): an over-read is an ASan report (c07_trunc.h) -> "ok"
      co <family> <seed> <params...>
          core encoders/decoders/helpers and containers, two-pass (probe length, allocate exactly,
          decode/encode) with exact-size caller OUTPUT buffers (c07_core.h) -> "ok"
@@ -140,10 +143,16 @@ static int c07_hl(int argc, char** argv) { (void)argc; (void)argv; return 0; }
 #include "c07_hl.h"
 #endif
 #include "c07_blob.h"
+#ifdef C07_NO_TRUNC
+static int c07_trunc(int argc, char** argv) { (void)argc; (void)argv; return 0; }
+#endif
 #ifdef C07_NO_CORE
 static int c07_core(int argc, char** argv) { (void)argc; (void)argv; return 0; }
 #else
 #include "c07_core.h"
+#endif
+#ifndef C07_NO_TRUNC
+#include "c07_trunc.h"
 #endif
 
 static void handle(int argc, char** argv)
@@ -183,6 +192,11 @@ static void handle(int argc, char** argv)
 	if (argc >= 2 && !strcmp(argv[0], "blob"))
 	{
 		if (!c07_blob(argc, argv)) printf("bad-op");
+		return;
+	}
+	if (argc >= 2 && !strcmp(argv[0], "tr"))
+	{
+		if (!c07_trunc(argc, argv)) printf("bad-op");
 		return;
 	}
 	if (argc >= 2 && !strcmp(argv[0], "co"))
